@@ -125,10 +125,14 @@ WsgiWsdlScenarios ==
    inj : {NoInj}, abort : {NoAbort, 0, 1}]
 \* HttpRpc as the OUT protocol hands the value of the function through unchanged: a plain number as its text, a generator
 \* of byte strings (res = "gen") as the lazily produced body
+\* ser = "late": the producer of such a body FAILS after its first chunk.  A server that sends the body as it is produced
+\* (chunked) has sent the status line by then: the failure reaches the WSGI server from the iterator, and the context is closed
+\* all the same.  A server that joins the body before it answers (not chunked) answers with the fault.
+LateInj == [NoInj EXCEPT !.ser = "late", !.res = "gen"]
 WsgiHttpOutScenarios ==
   [cfg : [tr : {"wsgi"}, family : {"http"}, chunked : BOOLEAN, maxlen : {4}, block : {1}],
    req : [kind : {"rpc"}, class : {"valid"}, len : {1}, declared : {Absent}],
-   inj : {i \in WsgiInj : i.fin \in {"ok", "rewrite"}}, abort : {NoAbort, 0, 1}]
+   inj : {i \in WsgiInj : i.fin \in {"ok", "rewrite"}} \cup {LateInj}, abort : {NoAbort, 0, 1}]
 WsgiScenarios == WsgiRpcScenarios \cup WsgiWsdlScenarios \cup WsgiHttpOutScenarios
 
 Scenarios == IF ScenSet = "events" THEN EventScenarios ELSE WsgiScenarios
@@ -284,15 +288,15 @@ EvExceptionObject ==
 
 \* success arm of handle_rpc: get_out_string inside try/except Exception
 SerializeOk ==
-  /\ pc = "serialize" /\ inj.ser = "ok" /\ pc' = "retdoc" /\ status' = 200
+  /\ pc = "serialize" /\ inj.ser \in {"ok", "late"} /\ pc' = "retdoc" /\ status' = 200
   /\ UNCHANGED <<scen, ev, fnRuns, fnOk, inErr, outErr, bound, sr, clen, handed, chunks, closed, wclosed, nread>>
 
 \* unserialisable return value, eager protocols.  The design fires
 \* method_exception_object (C14: "exactly when the call ends in a fault").
 SerializeFail ==
-  /\ pc = "serialize" /\ inj.ser # "ok" /\ outErr' = <<"Server">>
+  /\ pc = "serialize" /\ inj.ser \notin {"ok", "late"} /\ outErr' = <<"Server">>
   /\ IF Dev("NoExcObjOnSerFail") THEN UNCHANGED ev ELSE Fire("method_exception_object")
-  /\ pc' = "error" /\ status' = 200     \* resp_code was set before get_out_string; no property constrains it
+  /\ pc' = "error" /\ status' = 0       \* the call ends in a fault: the status line is the fault's (HandleError)
   /\ UNCHANGED <<scen, fnRuns, fnOk, inErr, bound, sr, clen, handed, chunks, closed, wclosed, nread>>
 
 \* ServerBase.finalize_context, success arm
@@ -319,8 +323,21 @@ NonChunkedJoinCrash ==
   /\ Emit("escape", "TypeError") /\ pc' = "crashed"
   /\ UNCHANGED <<scen, fnRuns, fnOk, inErr, outErr, bound, sr, status, clen, handed, chunks, closed, wclosed, nread>>
 
+\* not chunked: the body is joined before the server answers; a lazily produced body that fails while it is pulled makes the
+\* call end in a fault, answered as one (its own status line)
+JoinFails ==
+  /\ pc = "respond" /\ cfg.tr = "wsgi" /\ ~cfg.chunked /\ inj.ser = "late" /\ outErr = NoFault
+  /\ outErr' = <<"Server">> /\ Fire("method_exception_object") /\ status' = 0 /\ pc' = "error"
+  /\ UNCHANGED <<scen, fnRuns, fnOk, inErr, bound, sr, clen, handed, chunks, closed, wclosed, nread>>
+\* chunked: the failure surfaces from the iterator after the first chunk
+BodyFails ==
+  /\ pc = "body" /\ chunks = 1 /\ cfg.chunked /\ inj.ser = "late" /\ outErr = NoFault /\ abort \notin {0, 1}
+  /\ Emit("escape", "Boom") /\ pc' = (IF closed = 0 THEN "finalize" ELSE "iterclose")
+  /\ UNCHANGED <<scen, fnRuns, fnOk, inErr, outErr, bound, sr, status, clen, handed, chunks, closed, wclosed, nread>>
+
 StartResponse ==
   /\ pc = "respond" /\ cfg.tr = "wsgi"
+  /\ ~(inj.ser = "late" /\ ~cfg.chunked /\ outErr = NoFault)
   /\ ~(Dev("NonChunkedStrJoin") /\ ~cfg.chunked /\ outErr = NoFault)
   /\ sr' = sr + 1 /\ Emit("sr", status)
   \* Content-Length is sent for faults and for non-chunked successes
@@ -352,6 +369,7 @@ Chunk ==        \* one body chunk is enough for the abstraction
 \* the iterator is exhausted, or the server calls close() after `abort` chunks
 BodyEnd ==
   /\ pc = "body" /\ (chunks = 1 \/ abort = 0)
+  /\ ~(chunks = 1 /\ cfg.chunked /\ inj.ser = "late" /\ outErr = NoFault /\ abort \notin {0, 1})
   /\ pc' = (IF closed = 0 THEN "finalize" ELSE "iterclose")
   /\ UNCHANGED <<scen, ev, fnRuns, fnOk, inErr, outErr, bound, sr, status, clen, handed, chunks, closed, wclosed, nread>>
 
@@ -382,7 +400,7 @@ Next == \/ CtxCreate \/ WsgiCall \/ WsdlRespond \/ CallGenFn \/ GenFirst \/ Read
         \/ EvMethodCall \/ CallFn \/ EvRedirect \/ RedirectReturn \/ EvReturnObject \/ EvExceptionObject
         \/ SerializeOk \/ SerializeFail \/ EvReturnDocString \/ HandleError
         \/ NonChunkedJoinCrash \/ StartResponse \/ BaseRespond \/ FinalizeEarly
-        \/ HandOver \/ Chunk \/ BodyEnd \/ Finalize \/ IterClose
+        \/ HandOver \/ Chunk \/ BodyEnd \/ Finalize \/ IterClose \/ JoinFails \/ BodyFails
 
 Spec == Init /\ [][Next]_vars /\ WF_vars(Next)
 
@@ -391,13 +409,14 @@ Spec == Init /\ [][Next]_vars /\ WF_vars(Next)
 \* by what is known about the call), so that the SAME definitions are evaluated
 \* by TLC on the model here (M1) and on traces recorded from the real code (M3).
 Done == pc = "done"
-K == [tr |-> cfg.tr, rpc |-> req.kind = "rpc", mayEscape |-> inj.fin \in {"raise_closed", "raise_wsgiclose"},
+K == [tr |-> cfg.tr, rpc |-> req.kind = "rpc",
+      mayEscape |-> (inj.fin \in {"raise_closed", "raise_wsgiclose"} \/ (inj.ser = "late" /\ cfg.chunked)),
       wcloseExpected |-> inj.fin # "raise_closed", soap |-> cfg.family \in Soap, done |-> Done,
       fault |-> outErr # NoFault, fnOk |-> fnOk, fnRuns |-> fnRuns, redirect |-> (inj.fn = "redirect" /\ fnRuns > 0),
       infault |-> inErr # NoFault,
       malformed |-> (req.kind = "rpc" /\ (req.class # "valid" \/ (Truncated /\ cfg.family # "http"))),
       code |-> outErr, cls |-> ClsOf(outErr),
-      status |-> status, statusKnown |-> inj.ser = "ok",
+      status |-> status, statusKnown |-> TRUE,
       maxlen |-> cfg.maxlen, declared |-> Declared, toolong |-> (TooLong /\ req.kind = "rpc"),
       nread |-> nread, aborted |-> abort # NoAbort]
 
